@@ -271,6 +271,9 @@ pub fn campaigns(ctx: &Ctx) -> Stats {
 pub fn run(ctx: &Ctx) -> i32 {
     let mut st = ctx.run_replays(&dispatch);
     st.merge(campaigns(ctx));
+    if ctx.tier == Tier::Thorough {
+        st.merge(ctx.run_fuzz(30000, ctx.threads, &dispatch));
+    }
     finish(
         ctx,
         st,
